@@ -121,6 +121,12 @@ def build(desc):
                 raise NotImplementedError("lead gaps are only used by the C10 workload")
             for bd in ud["blocks"]:
                 cls = gtirb.CodeBlock if bd["kind"] == "code" else gtirb.DataBlock
+                if bd.get("gap_before"):
+                    # initialized bytes that no block covers (exotic modules)
+                    gb = vocab._fill(bd["id"] + "gap", bd["gap_before"])
+                    bi.contents += gb
+                    bi.size += len(gb)
+                    unit.toks.append(Tok("data", bd["id"] + ".gap", b=gb, origin="gap"))
                 start = bi.size
                 content = b""
                 toks = []
@@ -163,9 +169,24 @@ def build(desc):
                         func_entries.setdefault(bd["func"], set()).add(blk)
                 for k, v in (bd.get("blockaux") or {}).items():
                     m.aux_data[k].data[blk] = v
+            for ov in ud.get("overlays", []):
+                # a block overlapping existing ones (exotic modules)
+                ocls = gtirb.CodeBlock if ov["kind"] == "code" else gtirb.DataBlock
+                ob = ocls(offset=min(ov["off"], bi.size), size=max(0, min(ov["size"], bi.size - min(ov["off"], bi.size))))
+                ob.byte_interval = bi
+                if ov.get("label"):
+                    s2 = gtirb.Symbol(ov["label"], payload=ob)
+                    m.symbols.add(s2)
             gap = ud.get("tail_uninit", 0)
             if gap:
+                init = bi.size
                 bi.size += gap
+                pos = init
+                for n in ud.get("uninit_blocks", []):
+                    if pos + n <= bi.size:
+                        ub = gtirb.DataBlock(offset=pos, size=n)
+                        ub.byte_interval = bi
+                        pos += n + ud.get("uninit_gap", 0)
 
     # symbolic expressions
     externs = set(desc.get("externs", []))
